@@ -371,8 +371,9 @@ mutant('C15', 'shutdown-twice', 'frappy/secnode.py',
        "        for name in self._getSortedModules():\n            self.modules[name].shutdownModule()\n\n    def _attached_names",
        "        for name in self._getSortedModules():\n            self.modules[name].shutdownModule()\n        for mod in list(self.modules.values())[:1]:\n            mod.shutdownModule()\n\n    def _attached_names")
 # ---------------------------------------------------------------- C10
-mutant('C10', 'configured-value-written-twice', 'frappy/modulebase.py',
-       "            value = self.writeDict.pop(pname, Done)", "            value = self.writeDict.get(pname, Done)")
+# (removed: 'configured-value-written-twice' - writeDict.get instead of pop is behaviour-preserving, writeInitParams runs once
+#  per module object; 'unknown-param-property-ignored' - the 'except KeyError' it empties is dead code for parameters,
+#  an unknown property raises ProgrammingError)
 mutant('C10', 'configured-value-not-registered', 'frappy/modulebase.py',
        "            if hasattr(self, 'write_' + pname):\n                self.writeDict[pname] = pobj.value\n            if pobj.default is None:",
        "            if pobj.default is None:")
@@ -381,9 +382,6 @@ mutant('C10', 'unknown-names-ignored', 'frappy/modulebase.py',
 mutant('C10', 'bad-values-swallowed', 'frappy/modulebase.py',
        "            except BadValueError as e:\n                self.errors.append(f'{name}.{propname}: {str(e)}')",
        "            except BadValueError as e:\n                pass")
-mutant('C10', 'unknown-param-property-ignored', 'frappy/modulebase.py',
-       "            except KeyError:\n                self.errors.append(f\"'{name}' has no property '{propname}'\")",
-       "            except KeyError:\n                pass")
 mutant('C10', 'only-first-failing-module-reported', 'frappy/secnode.py',
        "            except ConfigError as e:\n                self.errors.append(f'error creating module {modulename}:')",
        "            except ConfigError as e:\n                if self.errors:\n                    return None\n                self.errors.append(f'error creating module {modulename}:')")
